@@ -832,6 +832,8 @@ def _run(ctx):
             if quick and n >= 200 and lv not in ((4, 4), (3, 3, 3), (2, 4, 4)):
                 continue
             ml = rng.random() < 0.35
+            if quick and 100 <= n < 200:
+                ml = rng.random() < 0.8                 # a full matrix with N in 100..200 costs 1-3 s in the real build_R_matrix
             if n >= 200:
                 ml = not ((quick and lv == (4, 4)) or (not quick and rng.random() < 0.25))
             case = {"kind": "uniform", "d": d, "lv": list(lv), "lam": rng.choice(LAMBDAS), "ml": ml,
